@@ -61,6 +61,10 @@ impl<T: Qcow2IoOps> Qcow2Dev<T> {
             return Ok(());
         }
 
+        // no read or write may have a data request in flight on a cluster
+        // which is released below
+        let _io = self.io_lock.write().await;
+
         log::trace!(
             "discard guest [{:x}, {:x}) -> whole-cluster [{:x}, {:x})",
             virtual_offset,
